@@ -928,3 +928,12 @@ def run(res, facts, tier):
     _run_c04_prev_order(res, facts, tier)
     from . import c04_order
     c04_order.run_rule(res, facts, tier)
+
+
+_run_c04_prev_fixup = run
+
+
+def run(res, facts, tier):
+    _run_c04_prev_fixup(res, facts, tier)
+    from . import c04_fixup
+    c04_fixup.run_rule(res, facts, tier)
